@@ -8,6 +8,6 @@ The sqrt(reg_eps) defect bound of UPGrad is decided by the bounded arm only."""
 from .aggs import SPECS, build_check
 from . import C03 as _c03
 
-CHECKS = [build_check("C09", SPECS[k], clauses=("post",)) for k in ("Mean", "Sum", "Constant", "Random", "ConFIG.default", "ConFIG.pref")]
+CHECKS = [build_check("C09", SPECS[k], clauses=("post",)) for k in ("Mean", "Sum", "Constant", "Random", "ConFIG.default", "ConFIG.pref", "PCGrad")]
 CHECKS += [c for c in _c03.CHECKS if c.name.startswith("upgrad")]
 TRUSTED = ["bridge lemmas lin_const*, lin_config, unit_row_scale_invariant, lin_pcgrad, qpmin_row_scaling (Lean)"]
